@@ -214,7 +214,10 @@ def step (st : St) (pre post : List String) : St × Verdict :=
                else if !okc then .diff "tree root is not in any commit info" else .ok)
         | _ => (st, .bad "tree")
     | _, _, _ => (st, .bad "tree")
-  | ["query", store, v, key] =>
+  | ["pending", _, _, _] => (st, .ok)     -- an uncommitted write to the working tree: no committed state changes
+  | [qk, store, v, key] =>
+    -- `query`: rootmulti.Store.Query; `squery`: iavl.Store.Query directly (no multistore op appended)
+    if qk ≠ "query" ∧ qk ≠ "squery" then (st, .bad "line") else
     match pBytes store, v.toInt?, pBytes key, post with
     | some store, some v, some key, [val, proof] =>
       match st.commits.find? (fun c => c.1 = v) with
@@ -236,7 +239,9 @@ def step (st : St) (pre post : List String) : St × Verdict :=
           let stored : Option Bytes := match ot with | none => none | some t => (Tree.leafList t).lookup key
           let msOk : Bool :=
             match proof.splitOn "+" with
+            | [_] => qk = "squery"
             | [_, p2] =>
+              qk = "query" &&
               match pOp p2 with
               | some (.multi k is) => k = store && is.length = infos.length && is.all (infos.contains ·) && infos.all (is.contains ·)
               | _ => false
